@@ -19,15 +19,21 @@ type checkSchema struct {
 	// to control recursion.
 	foundTypeNames map[string]struct{}
 
+	// resolvedTypeNames the names of the types whose JSON types have been
+	// collected completely: reaching such a type again through another type is
+	// not a recursion.
+	resolvedTypeNames map[string]struct{}
+
 	// allowedJsonTypes the list of available json-types from types.
 	allowedJsonTypes map[json.Type]struct{}
 }
 
 func CheckRootSchema(rootSchema *ischema.ISchema) {
 	c := checkSchema{
-		rootSchema:       rootSchema,
-		foundTypeNames:   make(map[string]struct{}, 10),
-		allowedJsonTypes: make(map[json.Type]struct{}, 10),
+		rootSchema:        rootSchema,
+		foundTypeNames:    make(map[string]struct{}, 10),
+		resolvedTypeNames: make(map[string]struct{}, 10),
+		allowedJsonTypes:  make(map[json.Type]struct{}, 10),
 	}
 
 	if rootSchema.RootNode() != nil { // the root schema may contain no nodes
@@ -206,6 +212,9 @@ func (c *checkSchema) checkLinksOfNode(node ischema.Node, ss map[string]ischema.
 	for k := range c.foundTypeNames {
 		delete(c.foundTypeNames, k)
 	}
+	for k := range c.resolvedTypeNames {
+		delete(c.resolvedTypeNames, k)
+	}
 	for k := range c.allowedJsonTypes {
 		delete(c.allowedJsonTypes, k)
 	}
@@ -322,11 +331,15 @@ func (c *checkSchema) collectAllowedJsonTypes(node ischema.Node, ss map[string]i
 	}
 
 	for _, typeName := range typesConstraint.(*constraint.TypesList).Names() {
+		if _, ok := c.resolvedTypeNames[typeName]; ok {
+			continue
+		}
 		if _, ok := c.foundTypeNames[typeName]; ok {
 			panic(errs.ErrImpossibleToDetermineTheJsonTypeDueToRecursion.F(typeName))
 		}
 		c.foundTypeNames[typeName] = struct{}{}
 		c.collectAllowedJsonTypes(getType(typeName, c.rootSchema, ss).RootNode(), ss) // can panic
+		c.resolvedTypeNames[typeName] = struct{}{}
 	}
 }
 
